@@ -39,4 +39,65 @@ PROPS = {
         assumptions=SCHED_ASSUME),
 }
 
+ENV_ASSUME = ['clients use the public API only (no direct writes to agents / components / component_pools)',
+              'a component attached to an agent was constructed for that agent (component.agent is its holder) and '
+              'belongs to one agent only; component classes use identity equality (property text)',
+              'agent ids are not mutated while resident; an agent is resident in at most one environment of its model',
+              'user subclasses do not override the contracted methods']
+
+PROPS.update({
+    'C03': dict(
+        level_text='Deductive proof that the PoolsMirror invariant (M1-M6: listings = components of resident agents, each '
+                   'once, in joining order, no empty listing, one list object per type) is preserved by Environment.'
+                   'add_agent / remove_agent for all populations, component mixes and pool contents (loop invariants over '
+                   'the dict enumeration; whole-view contracts of register/deregister_component), established by '
+                   'Model.__init__, and untouched by component edits on non-resident agents (frames). Edits on resident '
+                   'agents are open findings F1-F3b (pinned witnesses).',
+        level_note='Assumes component.agent is the holder; API-only writers; engine semantics of dict order and list.remove.',
+        functions=['Core.SystemManager.__init__', 'Core.Model.__init__', 'Core.SystemManager.register_component',
+                   'Core.SystemManager.deregister_component', 'Core.SystemManager.get_components',
+                   'Core.SystemManager.__getitem__#type', 'Core.Environment.__init__', 'Core.Environment.add_agent',
+                   'Core.Environment.remove_agent', 'Core.Agent.__init__', 'Core.Agent.add_component',
+                   'Core.Agent.remove_component', 'Core.Agent.get_component', 'Core.Agent.add_component#resident',
+                   'Core.Agent.remove_component#resident'],
+        assumptions=ENV_ASSUME),
+    'C04': dict(
+        level_text='Deductive proof: the agents dict is an ordered map id -> agent; add_agent appends exactly one entry, '
+                   'remove_agent deletes exactly one (order of the rest kept), DuplicateAgentError / AgentNotFoundError are '
+                   'raised exactly when documented and with the whole heap unchanged (frame obligation over every store), '
+                   'removal of a present agent cannot fail under the C03 invariant; lookup, length and iteration read the '
+                   'same map.',
+        level_note='Assumes C03 invariant as precondition (component sets not edited while resident), API-only writers, '
+                   'generator expression read as the list it yields.',
+        functions=['Core.Environment.__init__', 'Core.Environment.add_agent', 'Core.Environment.remove_agent',
+                   'Core.Environment.get_agent', 'Core.Environment.__len__', 'Core.Environment.__iter__',
+                   'Core.Agent.__init__'],
+        assumptions=ENV_ASSUME),
+    'C13': dict(
+        level_text='Deductive proof: get_agents returns a fresh list that is sound, complete and in joining order for the '
+                   'filter "has every template type and (tag is None or tag equal)" - both code paths and the tag '
+                   'comprehension are summarised by the enumeration law; has_component by loop invariant; '
+                   'get_random_agent / shuffle proved from that contract and the assumed Random contracts.',
+        level_note='Assumes random.Random.choice returns an element / shuffle permutes in place; reachability of every '
+                   'candidate is a property of the generator (not claimed).',
+        functions=['Core.Agent.has_component', 'Core.Agent.__contains__', 'Core.Environment.get_agents',
+                   'Core.Environment.get_random_agent', 'Core.Environment.shuffle'],
+        assumptions=ENV_ASSUME),
+    'C20': dict(
+        level_text='Deductive proof: every agent class gets a fresh component store and tag from the metaclass '
+                   'constructor; each class-level operation has a whole-view postcondition and a frame limited to that '
+                   "class's own store / tag, so parents, children, siblings and instances are untouched; duplicate "
+                   'attach / absent detach are rejected with nothing changed; Agent.__init__ takes the explicit tag or '
+                   'the default tag of its own class.',
+        level_note='Class objects modelled as heap objects at negative references; no other writer of _components/_tag '
+                   '(writer scan).',
+        functions=['Core._MetaAgent.__init__', 'Core._MetaAgent.add_class_component',
+                   'Core._MetaAgent.remove_class_component', 'Core._MetaAgent.get_class_component',
+                   'Core._MetaAgent.has_class_component', 'Core._MetaAgent.__getitem__', 'Core._MetaAgent.__len__',
+                   'Core._MetaAgent.__contains__', 'Core._MetaAgent.tag@get', 'Core._MetaAgent.tag@set',
+                   'Core._MetaAgent.components@get', 'Core.Agent.__init__', 'Core.Agent.add_component',
+                   'Core.Agent.remove_component', 'Core.Environment.__init__'],
+        assumptions=ENV_ASSUME),
+})
+
 NOT_APPLICABLE = {}
